@@ -103,6 +103,10 @@ func runCase(c *core.Ctx, i int) {
 		layoutCaseL2(c, rng)
 		return
 	}
+	if i%47 == 15 {
+		raggedCase(c, rng)
+		return
+	}
 	if i%23 == 7 {
 		loopbackCase(c, rng)
 		return
